@@ -81,7 +81,7 @@ func argMenu(t reflect.Type) ([]reflect.Value, bool) {
 		return []reflect.Value{reflect.New(t).Elem()}, true
 	case reflect.Interface:
 		out := []reflect.Value{reflect.Zero(t)}
-		for _, v := range []any{[]byte{1, 2, 3}, "x", 7} {
+		for _, v := range []any{[]byte{1, 2, 3}, "x", 7, make([]byte, 32)} {
 			if reflect.TypeOf(v).Implements(t) {
 				out = append(out, reflect.ValueOf(v).Convert(t))
 			}
@@ -194,4 +194,125 @@ func IsLibraryType(t reflect.Type) bool {
 		t = t.Elem()
 	}
 	return strings.HasPrefix(t.PkgPath(), "github.com/go-i2p/common")
+}
+
+// FuncInfo is an exported package-level function prepared for reflective calls.
+type FuncInfo struct {
+	Name string
+	V    reflect.Value
+	T    reflect.Type
+}
+
+// FuncsTaking indexes functions by the library types of their parameters (pointer removed).
+// Functions with a parameter that has no argument menu (maps, funcs, channels, foreign
+// interfaces without a menu value) are left out and counted in unsupported.
+func FuncsTaking(all []FuncInfo) (byType map[reflect.Type][]FuncInfo, unsupported int) {
+	byType = map[reflect.Type][]FuncInfo{}
+	for _, f := range all {
+		ok := true
+		var libs []reflect.Type
+		for i := 0; i < f.T.NumIn(); i++ {
+			pt := f.T.In(i)
+			if IsLibraryType(pt) && (pt.Kind() == reflect.Ptr || pt.Kind() == reflect.Struct || pt.Kind() == reflect.Array || pt.Kind() == reflect.Slice) {
+				base := pt
+				for base.Kind() == reflect.Ptr {
+					base = base.Elem()
+				}
+				libs = append(libs, base)
+				continue
+			}
+			if _, has := argMenu(pt); !has {
+				ok = false
+			}
+		}
+		if !ok {
+			unsupported++
+			continue
+		}
+		seen := map[reflect.Type]bool{}
+		for _, b := range libs {
+			if !seen[b] {
+				seen[b] = true
+				byType[b] = append(byType[b], f)
+			}
+		}
+	}
+	return
+}
+
+// CallFuncsWith calls every function of fs with v (a non-nil value or pointer of a library
+// type) supplied for every parameter of v's type - as value or pointer, whichever the
+// parameter wants - and menu values for the remaining primitive parameters; a function with a
+// parameter of ANOTHER library type is skipped (no value of that type is at hand). At most 16
+// argument combinations per function.
+func CallFuncsWith(v any, fs []FuncInfo, visit func(o CallOutcome)) (called int) {
+	rv := reflect.ValueOf(v)
+	if !rv.IsValid() {
+		return
+	}
+	base := rv.Type()
+	for base.Kind() == reflect.Ptr {
+		base = base.Elem()
+	}
+	var val, ptr reflect.Value
+	if rv.Kind() == reflect.Ptr {
+		if rv.IsNil() {
+			return
+		}
+		ptr, val = rv, rv.Elem()
+	} else {
+		p := reflect.New(rv.Type())
+		p.Elem().Set(rv)
+		ptr, val = p, p.Elem()
+	}
+	for _, f := range fs {
+		nin := f.T.NumIn()
+		menus := make([][]reflect.Value, nin)
+		ok := true
+		for i := 0; i < nin && ok; i++ {
+			pt := f.T.In(i)
+			switch {
+			case pt == base:
+				menus[i] = []reflect.Value{val}
+			case pt.Kind() == reflect.Ptr && pt.Elem() == base:
+				menus[i] = []reflect.Value{ptr}
+			case IsLibraryType(pt) && (pt.Kind() == reflect.Ptr || pt.Kind() == reflect.Struct || pt.Kind() == reflect.Array || pt.Kind() == reflect.Slice):
+				ok = false
+			default:
+				m, has := argMenu(pt)
+				if !has {
+					ok = false
+				}
+				menus[i] = m
+			}
+		}
+		if !ok {
+			continue
+		}
+		idx := make([]int, nin)
+		for combos := 0; combos < 16; combos++ {
+			args := make([]reflect.Value, nin)
+			var desc []string
+			for k := range args {
+				args[k] = menus[k][idx[k]]
+				desc = append(desc, fmt.Sprint(idx[k]))
+			}
+			var out []reflect.Value
+			panicked, msg, site := core.GuardSite(func() { out = f.V.Call(args) })
+			called++
+			visit(CallOutcome{Type: "func", Method: f.Name, Args: strings.Join(desc, ","), Panicked: panicked, Msg: msg, Site: site, Out: out})
+			k := 0
+			for ; k < nin; k++ {
+				idx[k]++
+				if idx[k] < len(menus[k]) {
+					break
+				}
+				idx[k] = 0
+			}
+			if k == nin {
+				break
+			}
+		}
+	}
+	return
 }
